@@ -305,6 +305,10 @@ def attributable(prop, ob, chk, tags):
         # preconditions of unchecked accesses (get_unchecked, from_raw_parts, ptr::add ...) are asserted by Kani as
         # "Rust intrinsic assumption failed" / "unsafe precondition(s) violated": violating them is the memory-safety
         # defect itself (the later pointer_dereference check is cut off by the assume that follows the assert)
+        if ob.get("c02_overflow") and (cat == "arithmetic_overflow" or "attempt to" in desc and "overflow" in desc):
+            # raw-pointer geometry code: an arithmetic overflow that panics in this checked build wraps silently in an
+            # optimised build and then yields out-of-range pointers/lengths (C02 is stated for optimised builds)
+            return True
         return (cat in MEMSAFE_CLASSES or "Rust intrinsic assumption failed" in desc
                 or "unsafe precondition" in desc or "undefined behavior" in desc.lower())
     return True
